@@ -408,6 +408,17 @@ func fnHello(ctx *cmdContext, args map[string]any) (output respValue, err error)
 			}
 			ctx.cs.respVersion = int(ver)
 		}
+
+		if name, hasName := helloArgs.mustGet("clientname").(string); hasName {
+			// HELLO ... SETNAME name: as CLIENT SETNAME
+			for _, ch := range name {
+				if ch < 33 {
+					output.data = respErrorString("ERR Client names cannot contain spaces, newlines or special characters.")
+					return
+				}
+			}
+			ctx.cs.name = name
+		}
 	}
 
 	props := map[string]any{
